@@ -74,32 +74,56 @@ func c24Bash(batch []c24Case) ([]c24Obs, bool) {
 }
 
 // c24Classify names the family of a divergence, or "" if the quirk model does
-// not explain both sides exactly.
+// not explain both sides exactly: the model without quirks must reproduce
+// bash, and some set of quirks must reproduce the interpreter. The quirks that
+// can matter for this input are found by toggling each one alone (from no
+// quirks and from all quirks); the smallest subset of those (ties: the one
+// with the earlier quirks) that reproduces the interpreter is the
+// explanation, and its first quirk is the class.
 func c24Classify(argv []string, interp, bash c24Obs) (class string, note string) {
 	same := func(o c24Out, b c24Obs) bool {
 		return !o.Unsupported && o.Status == b.Status && bytes.Equal(o.Out, b.Out)
 	}
-	if !same(c24Ref(argv, 0), bash) {
+	eq := func(a, b c24Out) bool {
+		return a.Unsupported == b.Unsupported && a.Status == b.Status && bytes.Equal(a.Out, b.Out)
+	}
+	none := c24Ref(argv, 0)
+	if !same(none, bash) {
 		return "", "reference model disagrees with bash"
 	}
-	set := c24qAll
-	if !same(c24Ref(argv, set), interp) {
-		return "", "quirk model does not reproduce the interpreter"
-	}
+	all := c24Ref(argv, c24qAll)
+	var sens []int
 	for i := range c24QuirkNames {
 		q := c24Q(1) << uint(i)
-		if same(c24Ref(argv, set&^q), interp) {
-			set &^= q
+		if !eq(c24Ref(argv, q), none) || !eq(c24Ref(argv, c24qAll&^q), all) {
+			sens = append(sens, i)
 		}
+	}
+	if len(sens) > 10 {
+		return "", "too many quirks apply"
+	}
+	best, bestN := c24Q(0), 99
+	for m := 1; m < 1<<uint(len(sens)); m++ {
+		var set c24Q
+		n := 0
+		for k, i := range sens {
+			if m&(1<<uint(k)) != 0 {
+				set |= c24Q(1) << uint(i)
+				n++
+			}
+		}
+		if n < bestN && same(c24Ref(argv, set), interp) {
+			best, bestN = set, n
+		}
+	}
+	if best == 0 {
+		return "", "no set of known quirks reproduces the interpreter"
 	}
 	var names []string
 	for i, n := range c24QuirkNames {
-		if set&(c24Q(1)<<uint(i)) != 0 {
+		if best&(c24Q(1)<<uint(i)) != 0 {
 			names = append(names, n)
 		}
-	}
-	if len(names) == 0 {
-		return "", "empty quirk set"
 	}
 	return names[0], strings.Join(names, "+")
 }
@@ -181,9 +205,13 @@ func c24Judge(c *vc.Ctx, sh *c24Shell, cs c24Case, bash c24Obs) *vc.Fail {
 		return nil
 	}
 	// a directive outside the interpreter's grammar, cleanly rejected
-	if in.Status == 1 && len(in.Out) == 0 && (c24Ref(cs.Argv, 0).Unsupported || c24Ref(cs.Argv, c24qAll).Unsupported) {
-		c.Count("skipped_unsupported_directive", 1)
-		return nil
+	if in.Status == 1 {
+		for _, q := range []c24Q{0, c24qAll} {
+			if o := c24Ref(cs.Argv, q); o.Unsupported && (len(in.Out) == 0 || bytes.Equal(in.Out, o.Out)) {
+				c.Count("skipped_unsupported_directive", 1)
+				return nil
+			}
+		}
 	}
 	class, note := c24Classify(cs.Argv, in, bash)
 	return &vc.Fail{
